@@ -6,7 +6,7 @@ func extraRules() []*Rule {
 	out = append(out, rulesLocks()...)
 	out = append(out, rulesTables()...)
 	out = append(out, rulesStorage()...)
-	out = append(out, ruleLifecycle(), ruleHeartbeat(), ruleRecordOffset(), ruleFollowerLookup())
+	out = append(out, ruleLifecycle(), ruleHeartbeat(), ruleRecordOffset(), ruleFollowerLookup(), ruleOffsetOwner())
 	return out
 }
 
@@ -89,7 +89,7 @@ func extraSpecs() []*PropertySpec {
 		},
 		{
 			ID:         "C20",
-			Rules:      []string{"LOCKSET", "WINDOW-CLEAN", "LOCK-PAIR"},
+			Rules:      []string{"LOCKSET", "WINDOW-CLEAN", "LOCK-PAIR", "OFFSET-OWNER"},
 			Decided:    "every access to a field of Raft that is written after construction, to follower/operationManager/lease state, to the per-round counters and every call on the (not concurrency-safe) log, state and snapshot storage objects happens with the node mutex held, in every calling context; the same for the transport's and connection manager's guarded fields; unlock windows touch only locals, immutable fields and thread-safe objects",
 			NotDecided: "races inside user-supplied components, gRPC or the test scaffolding; lock identity is per field, not per object",
 		},
